@@ -38,14 +38,18 @@ def explore(res, rng, n):
         res.stat('coefficients_as_%s' % {0: 'list', 1: 'list', 2: 'float_array', 3: 'int_array'}[kindc])
         with mock.patch.object(np.random, 'normal', side_effect=lambda mu, sigma, size: list(eps[:size])), \
                 mock.patch.object(np.random, 'seed', side_effect=lambda s=None: None):
-            outs = {
-                'ar': (lsg.arNormal(N, conv(obs), conv(phis), 0, 1), f'{N} {enc_list(obs)} {enc_list(phis)} {enc_list(eps)}'),
-                'ma': (lsg.maNormal(N, c, conv(thetas), 0, 1), f'{N} {c} {enc_list(thetas)} {enc_list(eps)}'),
-                'arma': (lsg.armaNormal(N, conv(obs2), conv(phis), conv(thetas), 0, 1),
-                         f'{N} {enc_list(obs2)} {enc_list(phis)} {enc_list(thetas)} {enc_list(eps)}'),
-                'arima': (lsg.arimaNormal(N, c, conv(phis), conv(thetas), 0, 1),
-                          f'{N} {c} {enc_list(phis)} {enc_list(thetas)} {enc_list(eps)}'),
-            }
+            outs = {}
+            for k_, call_, args_ in (
+                    ('ar', lambda: lsg.arNormal(N, conv(obs), conv(phis), 0, 1), f'{N} {enc_list(obs)} {enc_list(phis)} {enc_list(eps)}'),
+                    ('ma', lambda: lsg.maNormal(N, c, conv(thetas), 0, 1), f'{N} {c} {enc_list(thetas)} {enc_list(eps)}'),
+                    ('arma', lambda: lsg.armaNormal(N, conv(obs2), conv(phis), conv(thetas), 0, 1),
+                     f'{N} {enc_list(obs2)} {enc_list(phis)} {enc_list(thetas)} {enc_list(eps)}'),
+                    ('arima', lambda: lsg.arimaNormal(N, c, conv(phis), conv(thetas), 0, 1),
+                     f'{N} {c} {enc_list(phis)} {enc_list(thetas)} {enc_list(eps)}')):
+                try:
+                    outs[k_] = (call_(), args_)
+                except Exception as e:  # noqa
+                    fail(res, 'valid arguments raised ' + type(e).__name__ + ': ' + str(e)[:80], k_ + 'Normal', args_, None)
         for k, (out, args) in outs.items():
             res.evaluations += 1
             res.nontrivial.add((k, args))
@@ -61,9 +65,19 @@ def explore(res, rng, n):
         dim = rng.choice([1, 2, 3, 5])
         rs = [rng.randrange(2 * dim) for _ in range(N)]
         it = iter(rs)
-        with mock.patch.object(np.random, 'randint', side_effect=lambda hi: next(it)), \
+        if i % 25 == 3:
+            N = 300
+            rs = [rng.choice([0, 0, 0, 1]) if dim == 1 else rng.choice([0, 0, 0, 0, 1, 2]) for _ in range(N)]     # drifts beyond +-128
+            it = iter(rs)
+            res.stat('walk_long_drift')
+
+        def scripted_randint(hi, size=None, **kw):
+            # (a vectorised implementation may ask for all steps at once)
+            return next(it) if size is None else np.array([next(it) for _ in range(int(np.prod(size)))]).reshape(size)
+        with mock.patch.object(np.random, 'randint', side_effect=scripted_randint), \
                 mock.patch.object(np.random, 'seed', side_effect=lambda s=None: None):
             path = lsg.randomWalkUniform(N, dim)
+        path = [[int(v) for v in row] for row in path]
         res.evaluations += 1
         enc_path = ';'.join(enc_list(r) for r in path)
         reqs.append(f'walk {dim} ' + (','.join(map(str, rs)) if rs else '-'))
